@@ -295,6 +295,10 @@ class Engine:
             st.wr(attr + '.0', ref, v.items[0].t)
             st.wr(attr + '.1', ref, v.items[1].t)
         elif kind == 'int':
+            if isinstance(v, VOpt):
+                # the field is declared to hold an int: storing a possibly-None value is an obligation (not None here)
+                st.may_raise(v.isnone, 'TypeError', 'None stored into the int field %s' % attr)
+                v = v.val
             st.wr(attr, ref, self.as_int(v))
         elif kind == 'bool':
             st.wr(attr, ref, self.ev.truthy(st, v) if not isinstance(v, VBool) else v.t, B)
